@@ -13,7 +13,7 @@ From RU Require Import Base.Prelude Base.Utf8 Model.HostT Model.UrlRecord Model.
   Proofs.C06_Main Proofs.C02_Reach Proofs.C02_AuthParts Proofs.C02_AuthMain Proofs.C04_ParseTotal
   Proofs.C03_ReachParts Proofs.C03_Reach Proofs.C03_ReachFile Proofs.C03_ReachHost Proofs.C03_ReachHist
   Model.FilePath Proofs.C06_Path Proofs.C06_Host Proofs.C05_Enc Proofs.C03_ReachAll Proofs.C03_Reachability
-  Proofs.C03_ReachAscii Proofs.C03_ReachEx Proofs.C03_Views.
+  Proofs.C03_ReachAscii Proofs.C03_ReachEx Proofs.C03_Views Proofs.C03_PortInv.
 Open Scope string_scope.
 Open Scope N_scope.
 Open Scope list_scope.
@@ -391,6 +391,52 @@ Theorem C03_socket_addrs : forall u fallback, wf_b u = true ->
                                              | Some p => SockResolve d p | None => SockNoPort end)).
 Proof. exact socket_addrs_view. Qed.
 Print Assumptions C03_socket_addrs.
+
+(* port() vs port_or_known_default(): "a scheme-default port is never stored".  PN u (Proofs/C03_PortInv.v): the
+   stored port is not the default port of the stored scheme.  wf_b does not imply it (a record "http://h:80/"
+   with port = Some 80 is wf_b); it is an invariant of histories: every call of the 19 mutators covered by
+   C03_step preserves it (set_port, quirks set_port and quirks set_host store a normalised port, set_scheme
+   re-normalises the stored one, every other mutator keeps scheme and port or clears the port) *)
+Theorem C03_port_step : forall dbg hp hpo hd u o u', HostWf hp hpo hd -> IpDisp hd ->
+  wf_b u = true /\ host_text_ok u -> op_args_ok o -> excl03 u o u' = false ->
+  apply_op dbg hp hpo hd u o = Some u' -> PN u -> PN u'.
+Proof. intros dbg hp hpo hd u o u' HW HIP K Ha G H. exact (pn_step dbg hp hpo hd HW u o u' HIP K Ha G H). Qed.
+Check C03_port_step : forall dbg hp hpo hd u o u', HostWf hp hpo hd -> IpDisp hd ->
+  wf_b u = true /\ host_text_ok u -> op_args_ok o -> excl03 u o u' = false ->
+  apply_op dbg hp hpo hd u o = Some u' -> PN u -> PN u'.
+Print Assumptions C03_port_step.
+
+(* for every reached record, RELATIVE to ParsePN dbg hp hpo hd: "every record Parser::parse_url returns (from a
+   base that satisfies PN) satisfies PN" - true by inspection (parse_port normalises against the scheme being
+   parsed, parse_relative copies the port together with the scheme) but NOT proved: the full statement is *)
+Definition C03_port_never_default_statement : Prop :=
+  forall dbg hp hpo hd, HostWf hp hpo hd -> IpDisp hd -> forall u, reach03a dbg hp hpo hd u -> PN u.
+
+Theorem C03_port_never_default_partial : forall dbg hp hpo hd, HostWf hp hpo hd -> IpDisp hd -> ParsePN dbg hp hpo hd ->
+  forall u, reach03a dbg hp hpo hd u ->
+  PN u /\ forall sch, scheme u = Some sch -> forall p, port_or_known_default u = Some (Some p) ->
+            port u = Some p \/ (port u = None /\ default_port sch = Some p).
+Proof.
+  intros dbg hp hpo hd HW HIP HP u R. split; [exact (reach03a_pn dbg hp hpo hd HW HIP HP u R)|].
+  intros sch Hs p Hp. unfold port_or_known_default in Hp. destruct (port u) as [q|].
+  - left. inversion Hp. reflexivity.
+  - right. rewrite Hs in Hp. cbn in Hp. inversion Hp. split; reflexivity.
+Qed.
+Print Assumptions C03_port_never_default_partial.
+
+(* non-vacuity: "http://h:81/" parsed with the example host functions satisfies PN; set_port(Some 80) on it is a
+   step outside the exclusion and clears the port *)
+Example C03_port_step_inhabited :
+  match parse_url true ex_hp ex_hp ex_hd2 None None (B "http://h:81/") with
+  | POk u => opt_eqb (port u) (Some 81)
+             && match apply_op true ex_hp ex_hp ex_hd2 u (OSetPort (Some 80)) with
+                | Some u' => negb (excl03 u (OSetPort (Some 80)) u') && opt_eqb (port u') None
+                             && list_eqb (ser u') (B "http://h/")
+                | None => false
+                end
+  | _ => false
+  end = true.
+Proof. vm_compute. reflexivity. Qed.
 
 (* Eq / Ord / Hash / Display: transcriptions of lib.rs:2768-2864 (every impl delegates to self.serialization),
    so these clauses are definitional; the content is in C03_eq_records: for fixpoints of re-parsing (C02's
